@@ -119,9 +119,12 @@ def oracle(types, length, forest):
         bad.append(('a candidate appears twice', None))
     # the two-candidate rule as the property words it
     allc = [(c, p, inn) for (p, inn, cs) in types for c in cs]
-    if len(allc) == 2 and not bad:
-        order = sorted(range(2), key=lambda i: allc[i][0][0])  # stable
-        (x, px, ix), (y, py, iy) = allc[order[0]], allc[order[1]]
+
+    def pair_rule(c1, c2):
+        """(expected shape, is the recorded trailing-region finding) for two candidates given in candidate-list order"""
+        two = [c1, c2]
+        order = sorted(range(2), key=lambda i: two[i][0][0])  # stable
+        (x, px, ix), (y, py, iy) = two[order[0]], two[order[1]]
         if x[1] <= y[0]:
             exp = [(x[4], []), (y[4], [])]
         elif x[2] <= y[0] and y[1] <= x[3]:
@@ -130,14 +133,29 @@ def oracle(types, length, forest):
             exp = [(x[4], [])]
         else:
             exp = [(y[4], [])]
+        trailing = (not x[1] <= y[0]) and not (x[2] <= y[0] and y[1] <= x[3]) and (y[1] <= x[1] and x[3] <= y[0]) and py > px
+        return exp, trailing
 
-        def shape(items):
-            return [(it[1], shape(it[3])) for it in items if it[0] == 1]
+    def shape(items):
+        return [(it[1], shape(it[3])) for it in items if it[0] == 1]
+    if len(allc) == 2 and not bad:
+        exp, trailing = pair_rule(allc[0], allc[1])
         if shape(forest) != exp:
-            trailing = (not x[1] <= y[0]) and not (x[2] <= y[0] and y[1] <= x[3]) and \
-                (y[1] <= x[1] and x[3] <= y[0]) and py > px
             bad.append(('two-candidate rule: got %s, stated rule gives %s' % (shape(forest), exp),
                         'kf_trailing_region' if trailing else None))
+    # ... and the same rule one level down: a first candidate that parses its inside and holds the two others in its
+    # parse group has for children what the rule gives for those two
+    if len(allc) == 3 and not bad:
+        for i in range(3):
+            (x, px, ix) = allc[i]
+            rest = [allc[j] for j in range(3) if j != i]
+            if ix and x[0] < x[1] and all(r[0][0] < r[0][1] and x[0] < r[0][0] and x[2] <= r[0][0] and r[0][1] <= x[3] for r in rest):
+                inner, trailing = pair_rule(rest[0], rest[1])
+                exp = [(x[4], inner)]
+                if shape(forest) != exp:
+                    bad.append(('the two-candidate rule inside an enclosing token: got %s, stated rule gives %s' % (shape(forest), exp),
+                                'kf_trailing_region' if trailing else None))
+                break
     return bad
 
 
@@ -173,6 +191,15 @@ def gen_pairs(maxpos, precs):
                     for ix in (True, False):
                         for iy in (True, False):
                             yield ([(px, ix, [x + (0,)]), (py, iy, [y + (1,)])], maxpos)
+
+
+def gen_enclosed_pairs(maxpos, precs):
+    """every pair of gen_pairs shifted one to the right, inside the parse group of an enclosing candidate that parses its inside"""
+    for (types, length) in gen_pairs(maxpos, precs):
+        (px, ix, [x]), (py, iy, [y]) = types
+        sh = lambda c, cid: (c[0] + 1, c[1] + 1, c[2] + 1, c[3] + 1, cid)
+        for pe in (precs[0], precs[-1]):
+            yield ([(pe, True, [(0, length + 2, 1, length + 1, 0)]), (px, ix, [sh(x, 1)]), (py, iy, [sh(y, 2)])], length + 2)
 
 
 def gen_random(rng, n):
@@ -332,6 +359,8 @@ def run(ctx):
     run_cases(ctx, pairs, 'exhaustive_pairs')
     ctx.cov['exhaustive_pairs'] = ('all pairs of candidates with endpoints in 0..%d (every Allen relation, every parse group) x '
                                    'precedence 3..7 x parse_inner' % maxpos)
+    enc = list(gen_enclosed_pairs(2 if ctx.quick() else 3, [3, 5, 7]))
+    run_cases(ctx, enc, 'exhaustive_pairs_inside_an_enclosing_token')
     n = 40000 if ctx.quick() else 1000000
     rnd = list(gen_random(ctx.rng, n))
     sizes = {}
